@@ -11,7 +11,7 @@ from . import common
 
 ID = 'C10'
 LEVEL = 'exploration'
-N = {'quick': 20000, 'thorough': 500000}
+N = {'quick': 28000, 'thorough': 500000}
 RULE = ('one generated election (all rules x accepted options; multipliers >= 2 forced) in two presentations: canonical, and lines permuted + '
         'multipliers split/merged + random white space (LF, CRLF, bare CR) / comments / nicknames / option order; 3 % narrow-surplus chains; oracle: json(), report() and dump() byte-identical; '
         'non-trivial = the presentations differ in line order and grouping and the count has a fractional transfer value or Meek iteration')
@@ -27,7 +27,11 @@ def cases(draw, tier):
     if d.p(3):
         case = gen.narrow_chain_case(d)     # zero-valued papers next to valued ones: sensitive to line order and splitting
     else:
-        case = draw(gen.election_cases(tier=tier, equal_for_meek=True))
+        case = draw(gen.election_cases(tier=tier, equal_for_meek=True, chains=d.p(50)))
+        if case['rule'] == 'wigm' and case['options'].get('arithmetic', 'guarded') in ('guarded', 'rational') and d.p(35):
+            # truncating arithmetic is where per-line and per-ballot rounding can differ between presentations
+            case['options'] = dict(case['options'], arithmetic='fixed', precision=d.int(1, 6))
+            case['options'].pop('guard', None)
     case.pop('nicks', None)         # the baseline uses numbers; the variant may use nicknames
     if all(m == 1 for m, _ in case['ballots']):
         d.choice(case['ballots'])[0] = d.int(2, 9)
